@@ -153,6 +153,7 @@ def run_property(pid, tier, seed):
     failures = []
     for c in cases:
         lo = lib.get(c.id, {}).get("obs", {})
+        c.meta["_lib_in"] = lib.get(c.id, {}).get("in", {})
         for orc in cfg["oracles"]:
             for what in orc(c, lo):
                 failures.append({"case": c.id, "kind": c.kind, "what": what})
@@ -254,6 +255,7 @@ def replay(path):
     lib, model, diffs, compared = eng.run_all([c], cfg.get("filter"), cfg.get("comparators"))
     eng.cleanup()
     lo = lib.get(c.id, {}).get("obs", {})
+    c.meta["_lib_in"] = lib.get(c.id, {}).get("in", {})
     fails = []
     for orc in cfg["oracles"]:
         fails += orc(c, lo)
